@@ -46,15 +46,15 @@ ENGINE_TB = TB_COMMON + [
 
 ENGINE_STREAMS = {
     # property: list of (profile, histories quick, histories thorough, ops)
-    "C01": [("C01", 50, 1500, 40), ("static", 30, 1000, 40), ("wide", 30, 600, 30), ("widekids", 30, 600, 90)],
+    "C01": [("C01", 50, 1500, 40), ("static", 30, 1000, 40), ("wide", 30, 600, 30), ("widekids", 30, 600, 90), ("readd", 30, 1000, 30)],
     "C02": [("C01", 40, 1500, 40), ("midset", 30, 1000, 40), ("binds", 30, 1500, 40), ("raise", 40, 1000, 30), ("chain", 30, 1000, 30)],
     "C03": [("C01", 40, 1500, 40), ("faults", 30, 1000, 40), ("alwaysfaults", 40, 1000, 40), ("sentinel", 80, 2000, 40)],
-    "C05": [("C01", 30, 1500, 40), ("faults", 30, 1500, 40), ("reject", 30, 1000, 40), ("wide", 20, 400, 30), ("sentinel", 60, 1500, 40)],
+    "C05": [("C01", 30, 1500, 40), ("faults", 30, 1500, 40), ("reject", 30, 1000, 40), ("wide", 20, 400, 30), ("sentinel", 60, 1500, 40), ("fanout", 30, 1000, 46)],
     "C06": [("C01", 40, 1500, 40), ("churn", 40, 1000, 60), ("wide", 20, 400, 30), ("sentinel", 60, 1500, 40), ("inner", 30, 1000, 40)],
     "C07": [("faults", 50, 2000, 40), ("alwaysfaults", 50, 2000, 40), ("binds", 20, 1000, 40), ("reject", 30, 1000, 40), ("pardropfaults", 30, 1000, 30)],
     "C08": [("binds", 60, 3000, 40), ("inner", 30, 1000, 40), ("bind2", 60, 2000, 40), ("deadobs", 40, 1500, 40), ("chain", 40, 1500, 30)],
     "C10": [("C01", 30, 1500, 40), ("faults", 30, 1500, 40), ("inner", 40, 1500, 40)],
-    "C11": [("cutoffs", 60, 3000, 40), ("midset", 50, 1500, 40)],
+    "C11": [("cutoffs", 60, 3000, 40), ("midset", 50, 1500, 40), ("readd", 40, 1500, 30)],
     "C12": [("midset", 40, 1500, 40), ("unobs", 30, 1500, 40), ("relink", 50, 1500, 34)],
     "C13": [("C01", 40, 1500, 40), ("midset", 30, 1500, 40), ("inner", 30, 1500, 40)],
 }
@@ -173,6 +173,13 @@ def run_C18_full(ctx, K):
         if rep:
             ctx.coq_cases += rep.get("coq_cases", 0)
             K.run_cases(ctx, cases, "Engine.v (addChild/adjustHeights)~graph.go, adjust_heights_heap.go (%s)" % name)
+    # wide raises: one link lifts a hub and all its dependents of one height (the adjust-heights buckets grow and wrap)
+    cases = os.path.join(ctx.rundir, "cases_C18_fanout.v")
+    rep = K.run_tool(ctx, b, ["-prop", "fanout", "-claim", "C18", "-include", "C05,C02,C01", "-n", str(tier_n(ctx, 400, 4000)), "-ops", "46",
+                              "-coq", cases, "-coqmax", str(tier_n(ctx, 40, 800)), "-seed", str(ctx.seed)], "engine-fanout")
+    if rep:
+        ctx.coq_cases += rep.get("coq_cases", 0)
+        K.run_cases(ctx, cases, "Engine.v (addChild/adjustHeights)~graph.go, adjust_heights_heap.go (fanout stream)")
 
 
 def run_C05_edgeindex(ctx, K):
@@ -303,6 +310,8 @@ def run_C16(ctx, K):
     stream("br", ["-mode", "branching", "-len", "4" if q else "5", "-vals", "2" if q else "1"],
            100 if q else 300, "operations on any earlier version")
     stream("rnd", ["-mode", "random", "-n", str(tier_n(ctx, 200, 3000))], tier_n(ctx, 80, 600), "random")
+    # the map is generic in V: values that are not comparable, or whose == differs from identity (implementation only)
+    K.run_tool(ctx, b, ["-mode", "valuetypes", "-n", str(tier_n(ctx, 100, 2000)), "-ops", "40", "-seed", str(ctx.seed)], "pmap-valuetypes")
 
 
 PLANS_C16 = {"C16": dict(run=run_C16,
@@ -492,6 +501,7 @@ def run_C09(ctx, K):
     b = K.go_build(ctx, "incrtrace")
     if not b:
         return
+    run_parscen(ctx, K)  # memoized binds created inside bind functions (not expressible as a template of the model)
     cases = os.path.join(ctx.rundir, "cases_C09_memo.v")
     rep = K.run_tool(ctx, b, ["-prop", "memo", "-claim", "C09", "-include", "C01,C05,C06,C07,C10", "-n", str(tier_n(ctx, 150, 3000)),
                               "-coq", cases, "-coqmax", str(tier_n(ctx, 60, 400)), "-seed", str(ctx.seed)], "engine-memo")
